@@ -150,7 +150,10 @@ def rule_blockgate(prog, rep):
         return e.get("k") == "path" and e.get("res") and e["res"][0] == "local" and sc.is_param(e["res"][2])
 
     # the whitespace-trimming helper: the fn(&str) -> &str nested in can_be_block_string (any name)
-    trimmers = [g for g in prog.fns.values() if g.name.startswith(cb.name + "::") and g.kind == "fn"]
+    from ..core import private_helpers_of as _pho
+    _helpers = _pho(prog, [cb])
+    trimmers = [g for g in prog.fns.values() if g.kind == "fn" and (g.name.startswith(cb.name + "::") or g.uid in _helpers)
+                and [re.sub(r"'\w+ ", "", t or "") for t in (g.d.get("sig_in") or [])] == ["&str"] and re.sub(r"'\w+ ", "", g.d.get("sig_out") or "") == "&str"]
     if len(trimmers) != 1:
         raise Undecided("can_be_block_string: expected one nested whitespace-trimming helper (found %d)" % len(trimmers))
     trimmer = trimmers[0]
